@@ -2,11 +2,13 @@
 import common as C
 import oracles as O
 from props import _filter as FL
+import pluginstream as PS
 
 PID = 'C14'
 TRUSTED = ['Tier H model coq/Model/{Axis,Filter}.v tied to /repo by vm_compute correspondence on every run (harness/filterstream.py)',
            'modelled, not verified: binary64 rounding (model is exact; numbers compared within 1e-9, decisions away from borders by >= 5e-4)',
-           'AtCommandAction.matches (user regex) is an external parameter of the model']
+           'AtCommandAction.matches (user regex) is an external parameter of the model: in the plugin stream the matched actions are computed from the '
+           'settings in force by the harness (re.match), not read from the plugin']
 ASSUMPTIONS = ['default action patterns in the generated stream; custom patterns enter the model as the list of matched actions']
 KW = dict()
 
@@ -20,7 +22,9 @@ def _kw():
 def correspondence(ctx):
     kw, styles = _kw()
     acc = (lambda p: p['style'] in styles) if styles else None
-    return FL.correspondence(ctx, PID, kw, 60, 1500, accept=acc)
+    r = FL.correspondence(ctx, PID, kw, 60, 1500, accept=acc)
+    # the plugin layer: the action table comes from the settings (custom commands and patterns, changed at run time)
+    return PS.merge_into(r, ctx, PID.lower() + 'p', 20, 500, extra=[PS.atc_history(ctx.rng) for _ in range(ctx.n(15, 300))])
 
 
 def oracle(ctx, budget=1, replay=None, hints=None):
